@@ -216,7 +216,7 @@ func (d *driver) suiteRandom() {
 	}
 	if d.thorough {
 		// a corpus whose postings tree has more items than one B-tree node holds (slot length 5000)
-		docs := d.randCorpus(520, 60)
+		docs := d.randCorpus(700, 60)
 		p := split(docs, 4)
 		d.runCorpus(fmt.Sprintf("random-s%d-big", d.seed), p, d.randQueries(30))
 	}
